@@ -744,8 +744,64 @@ def real_population_wrappers(rec):
                      exhaustive=True)
 
 
+def population_predictive(rec):
+    """bounded run-time contract: PopulationPredictiveModel.fix_parameters -- also when the population model that was handed in is already a
+    ReducedPopulationModel with fixed values (what ProblemModellingController.get_predictive_model passes on): names and counts list the free
+    parameters, and seeded samples equal those of the unfixed model at the substituted vector; several calls, release, re-fix"""
+    import chi as real
+    from contracts import c16
+    Toy = c16.native_toy(1, 2)
+
+    def full_model():
+        pm = real.PredictiveModel(Toy(), [real.GaussianErrorModel()])
+        pop = real.ComposedPopulationModel([real.LogNormalModel(), real.PooledModel(), real.LogNormalModel()])          # (positive individual noise scales)
+        return pm, pop
+    pm0, pop0 = full_model()
+    ppm_full = real.PopulationPredictiveModel(pm0, pop0)
+    names = list(ppm_full.get_parameter_names())
+    vals = {n_: 0.4 + 0.15 * k for k, n_ in enumerate(names)}
+    cases = []
+    for pre in ({}, {names[0]: 0.4}, {names[2]: 0.7, names[4]: 1.0}):
+        for seq in ([{names[1]: 0.55}], [{names[3]: 0.85}, {names[1]: 0.55}], [{names[1]: 9.0}, {names[1]: 0.55}], [{names[1]: 0.55, names[3]: 0.85}, {names[3]: None}]):
+            cases.append((pre, seq))
+
+    def one(case):
+        pre, seq = case
+        pm, pop = full_model()
+        if pre:
+            pop = real.ReducedPopulationModel(pop)
+            pop.fix_parameters({k_: vals[k_] for k_ in pre})
+        ppm = real.PopulationPredictiveModel(pm, pop)
+        A = {k_: vals[k_] for k_ in pre}
+        for d_ in seq:
+            ppm.fix_parameters(d_)
+            for k_, v_ in d_.items():
+                if v_ is None:
+                    A.pop(k_, None)
+                else:
+                    A[k_] = vals[k_] if v_ != 9.0 else 9.0
+        free = [n_ for n_ in names if n_ not in A]
+        got = list(ppm.get_parameter_names())
+        if got != free or ppm.n_parameters() != len(free):
+            return 'population model handed in with %s fixed, then fix_parameters calls %s: the predictive model reports the parameters %s (n = %s); the fixed pairs are %s, so %s are free' % (
+                sorted(pre), seq, got, ppm.n_parameters(), sorted(A), free)
+        x = [vals[n_] for n_ in free]
+        xf = [A.get(n_, vals[n_]) for n_ in names]
+        try:
+            a_ = np.asarray(ppm.sample(x, [1.0, 2.0], n_samples=3, seed=7, return_df=False), dtype=float)
+            b_ = np.asarray(ppm_full.sample(xf, [1.0, 2.0], n_samples=3, seed=7, return_df=False), dtype=float)
+        except Exception as ex:
+            return 'population model handed in with %s fixed, then %s: sampling at the %d free parameters raises %r' % (sorted(pre), seq, len(free), ex)
+        if a_.shape != b_.shape or not np.allclose(a_, b_):
+            return 'population model handed in with %s fixed, then %s: seeded samples differ from the unfixed model at the substituted vector' % (sorted(pre), seq)
+        return None
+    q = 'chi._predictive_models.PopulationPredictiveModel.'
+    rec.native_check('PopulationPredictiveModel/fix.subst', [q + 'fix_parameters', q + 'get_parameter_names', q + 'n_parameters', q + 'sample'], cases, one,
+                     'population model plain or already reduced (1 / 2 fixed values) x 4 call sequences (single, two calls, re-fix, fix and release); pure-Python mechanistic model; seeded samples against the unfixed model', exhaustive=True)
+
+
 def tasks():
-    out = [('ReducedPopulationModel:real', real_population_wrappers)]
+    out = [('ReducedPopulationModel:real', real_population_wrappers), ('PopulationPredictiveModel', population_predictive)]
     for p in (1, 2, 3):
         out.append(('ReducedErrorModel:%d' % p, (lambda rec, p=p: reduced_error(rec, p))))
         out.append(('ReducedMechanisticModel:%d' % p, (lambda rec, p=p: reduced_mechanistic(rec, p))))
